@@ -39,6 +39,7 @@ type connLog struct {
 	mu   sync.Mutex
 	evs  []evT
 	done chan struct{} // closed when the server closed its end
+	nest int           // nesting depth of the search keys this connection's input carries (0: flat)
 }
 
 func (l *connLog) add(e evT) {
@@ -54,7 +55,11 @@ type stub struct {
 }
 
 func (s *stub) call(m string, kind string, n int64) {
-	s.log.add(evT{"ev": "Call", "m": m, "kind": kind, "n": n})
+	nest := 0
+	if m == "Search" {
+		nest = s.log.nest
+	}
+	s.log.add(evT{"ev": "Call", "m": m, "kind": kind, "n": n, "nest": nest})
 }
 func maxLen(ss ...string) int64 {
 	var m int64
@@ -220,6 +225,7 @@ type caseT struct {
 	Data  []byte `json:"data"`            // bytes written by the client
 	Cut   string `json:"cut"`             // "close" | "quiet-close" | "reset"
 	Label string `json:"label,omitempty"` // human readable
+	Nest  int    `json:"nest,omitempty"`  // nesting depth of the (balanced) search keys in Data
 }
 
 type outcome struct {
@@ -235,7 +241,7 @@ var teardownMissed int64
 
 // runConn plays one case and returns the ordered life-cycle events.
 func runConn(cs *caseT) *outcome {
-	l := &connLog{done: make(chan struct{})}
+	l := &connLog{done: make(chan struct{}), nest: cs.Nest}
 	ln, srv := ln, srv
 	plus := strings.HasPrefix(cs.Name, "plus")
 	if plus {
@@ -512,6 +518,7 @@ func fuzzCases(n int, rng *rand.Rand) []*caseT {
 	}
 	for i := 0; i < n; i++ {
 		var data []byte
+		nest := 0
 		label := ""
 		switch i % 4 {
 		case 0, 1: // token-level mutation of a valid transcript
@@ -547,6 +554,16 @@ func fuzzCases(n int, rng *rand.Rand) []*caseT {
 			pre := []string{"a LOGIN u p\r\nb SELECT x\r\nc SEARCH ", "a LOGIN u p\r\nb SELECT x\r\nc FETCH 1 ", "a LOGIN u p\r\nb LIST ", "a LOGIN u p\r\nb STATUS x ", "a LOGIN u p\r\nb APPEND x "}[rng.Intn(5)]
 			data = []byte(pre + strings.Repeat("(", d) + "\r\nz NOOP\r\n")
 			label = fmt.Sprintf("nesting depth %d after %q", d, pre[len(pre)-10:])
+			if rng.Intn(2) == 0 {
+				// balanced: a well-formed SEARCH whose keys are nested d deep - beyond the bound it must not be
+				// followed into the backend
+				d = []int{10, 999, 1000, 1001, 1002, 1500, 20000}[rng.Intn(7)]
+				uid := []string{"", "UID "}[rng.Intn(2)]
+				key := []string{"ALL", "SEEN", "OR SEEN FLAGGED", "NOT DELETED"}[rng.Intn(4)]
+				data = []byte("a LOGIN u p\r\nb SELECT x\r\nc " + uid + "SEARCH " + strings.Repeat("(", d) + key + strings.Repeat(")", d) + "\r\nz NOOP\r\n")
+				label = fmt.Sprintf("balanced search keys nested %d deep", d)
+				nest = d
+			}
 		default: // garbage
 			b := make([]byte, rng.Intn(300))
 			for j := range b {
@@ -560,7 +577,7 @@ func fuzzCases(n int, rng *rand.Rand) []*caseT {
 			data, label = b, "garbage"
 		}
 		cut := []string{"close", "quiet-close", "reset", "gone"}[rng.Intn(4)]
-		cases = append(cases, &caseT{Name: "fuzz", Data: data, Cut: cut, Label: fmt.Sprintf("%s #%d/%s", label, i, cut)})
+		cases = append(cases, &caseT{Name: "fuzz", Data: data, Cut: cut, Label: fmt.Sprintf("%s #%d/%s", label, i, cut), Nest: nest})
 	}
 	return cases
 }
